@@ -13,24 +13,31 @@ def gen_list(r, trees, unrooted_ids, allow_rooted=True):
     items = []
     tids = list(trees)
     r.shuffle(tids)
+    def rooted_from(chosen):
+        """direct children of the chosen trees; by preference children that have the SAME NAME in different trees (a node's
+        path is relative to its own root)"""
+        out = []
+        per = {tid: [k["name"] for k in trees[tid]["kids"]] for tid in chosen}
+        common = sorted(set.intersection(*[set(v) for v in per.values()])) if len(per) > 1 else []
+        for tid in chosen:
+            kids = list(per[tid])
+            r.shuffle(kids)
+            if common and r.random() < 0.7:
+                c = common[0]
+                kids = [c] + [k for k in kids if k != c]
+            for kn in kids[:r.choice([1, 2])]:
+                out.append({"node": [tid, [kn]]})
+        return out
     if allow_rooted and r.random() < 0.3:
         # a list of rooted nodes ONLY (no Root, nothing unrooted, no array, no dict)
-        for tid in r.sample(list(trees), k=min(len(trees), r.choice([1, 2]))):
-            kids = [k["name"] for k in trees[tid]["kids"]]
-            r.shuffle(kids)
-            for kn in kids[:r.choice([1, 2])]:
-                items.append({"node": [tid, [kn]]})
+        items = rooted_from(r.sample(list(trees), k=min(len(trees), r.choice([1, 2, 2]))))
         if items:
             return {"kind": r.choice(["list", "tuple"]), "items": items}
     for tid in tids[:r.randrange(0, len(tids) + 1)]:
         items.append({"root": tid})
     if allow_rooted and r.random() < 0.5:
         # rooted direct children, from one or two trees
-        for tid in r.sample(list(trees), k=min(len(trees), r.choice([1, 1, 2]))):
-            kids = [k["name"] for k in trees[tid]["kids"]]
-            r.shuffle(kids)
-            for kn in kids[:r.choice([1, 2])]:
-                items.append({"node": [tid, [kn]]})
+        items += rooted_from(r.sample(list(trees), k=min(len(trees), r.choice([1, 1, 2]))))
     for uid in unrooted_ids:
         if r.random() < 0.5:
             items.append({"unrooted": uid})
@@ -59,6 +66,39 @@ def cases(tier, seed):
                 tgt = r.choice(t["kids"])
                 if other not in [x["name"] for x in t["kids"]]:
                     tgt["name"] = other
+        # direct children with the SAME name in two trees
+        if nt >= 2 and r.random() < 0.35:
+            a, b = r.sample(range(nt), 2)
+            ta, tb = trees[f"T{a}"], trees[f"T{b}"]
+            if ta["kids"] and tb["kids"]:
+                nm = r.choice(ta["kids"])["name"]
+                tgt = r.choice(tb["kids"])
+                if nm not in [x["name"] for x in tb["kids"]]:
+                    tgt["name"] = nm
+        # a node path of one tree that spells "<root of another tree>/<a child of that root>": T_a holds <R_b>/<c> and tree
+        # R_b holds <c>; the runtime node has a child the file will not have at first
+        coincide = None
+        if r.random() < 0.3:
+            a, b = r.sample(range(nt), 2)
+            ta, tb = trees[f"T{a}"], trees[f"T{b}"]
+            if ta["kids"] and tb["kids"]:
+                holder = next((x for x in ta["kids"] if x["name"] == f"R{b}"), None)
+                if holder is None and f"R{b}" not in [x["name"] for x in ta["kids"]]:
+                    holder = r.choice(ta["kids"])
+                    if f"R{b}" not in gen.reserved_names(holder):
+                        holder["name"] = f"R{b}"
+                    else:
+                        holder = None
+                if holder is not None and holder["name"] == f"R{b}":
+                    cname = r.choice(tb["kids"])["name"]
+                    if cname not in gen.reserved_names(holder):
+                        kid = next((x for x in holder["kids"] if x["name"] == cname), None)
+                        if kid is None:
+                            kid = {"name": cname, "cls": "Node", "pay": gen.gen_payload(r, "Node"), "md": [], "kids": []}
+                            holder["kids"].append(kid)
+                        if not kid["kids"]:
+                            kid["kids"].append({"name": "onlyhere", "cls": "Node", "pay": gen.gen_payload(r, "Node"), "md": [], "kids": []})
+                        coincide = (f"T{a}", f"T{b}", [f"R{b}", cname])
         unrooted = {}
         for k in range(r.choice([0, 1, 2])):
             cls = r.choice(gen.CLASSES)
@@ -73,6 +113,18 @@ def cases(tier, seed):
             steps.append({"do": "save", "path": "A", "src": r.choice(list(trees)), "target": [], "mode": "w", "tree": True, "emdpath": None})
             steps.append({"do": "walk", "path": "A"})
             steps.append({"do": "save", "path": "A", "mode": directed, "tree": True, "emdpath": None, "input": gen_list(r, trees, list(unrooted))})
+            steps.append({"do": "walk", "path": "A"})
+            first = False
+        if coincide is not None and directed is None:
+            # directed: the other tree is in the file; the node alone is appended at its own path, then its branch
+            ta_id, tb_id, pth = coincide
+            directed = "coincide"
+            steps.append({"do": "save", "path": "A", "src": tb_id, "target": [], "mode": "w", "tree": True, "emdpath": None})
+            steps.append({"do": "walk", "path": "A"})
+            steps.append({"do": "save", "path": "A", "src": ta_id, "target": pth, "mode": "a", "tree": False, "emdpath": None})
+            steps.append({"do": "walk", "path": "A"})
+            steps.append({"do": "save", "path": "A", "src": ta_id, "target": pth, "mode": r.choice(["a", "ao"]),
+                          "tree": r.choice([True, True, None]), "emdpath": None})
             steps.append({"do": "walk", "path": "A"})
             first = False
         for _ in range(r.choice([1, 2, 3, 4]) if directed is None else r.choice([0, 1])):
